@@ -2,6 +2,7 @@
 from __future__ import annotations
 
 import ast
+import re
 from typing import Dict, List, Optional, Set, Tuple
 
 from ..core import AnalysisError, RuleSpec
@@ -456,6 +457,84 @@ def r10_inherited_generic_specifics(ctx, rep):
     c07.r12_inherited_generic_specifics(ctx, rep)
 
 
+def _paged_lists(py) -> Dict[str, str]:
+    """project list -> page class / factory it is paged with, from the table(s) in Documentation.__init__ in any of their spellings"""
+    init = py.func("Documentation.__init__")
+    out: Dict[str, str] = {}
+    for n in ast.walk(init):
+        if isinstance(n, ast.Tuple) and len(n.elts) == 2 and isinstance(n.elts[0], ast.Attribute) and ast.unparse(n.elts[0].value) == "project" \
+                and isinstance(n.elts[1], ast.Name):
+            out[n.elts[0].attr] = n.elts[1].id
+        if isinstance(n, ast.Dict):
+            for k, v in zip(n.keys, n.values):
+                if isinstance(k, ast.Constant) and isinstance(k.value, str) and isinstance(v, ast.Name) and v.id.endswith(("Page",)):
+                    out[k.value] = v.id
+        if isinstance(n, ast.Assign) and isinstance(n.value, ast.Name) and n.value.id.endswith("Page"):
+            for t in n.targets:
+                if isinstance(t, ast.Subscript) and isinstance(t.slice, ast.Constant) and isinstance(t.slice.value, str):
+                    out[t.slice.value] = n.value.id
+    return out
+
+
+# paged lists whose entities take part in no graph relation, with the reason
+NO_GRAPHS = {
+    "absinterfaces": "an abstract interface calls nothing and nothing calls it (its page shares the template of interface blocks)",
+    "extra_files": "files of extra_filetypes are not Fortran: they have no USE / call relations",
+}
+
+
+def r11_graphs_for_every_paged_kind(ctx, rep):
+    """An entity's page shows its graphs only if the entity was registered with the graph manager, and it is a root of the
+    project-wide graphs only then.  The registration in Documentation.__init__ walks project lists; every list whose pages carry
+    graph cards (the page template prints a `...graph` attribute) has to be among them - sibling agreement with the table the
+    pages are made from."""
+    py, j = ctx.py, ctx.j
+    from . import c09
+    paged = _paged_lists(py)
+    if len(paged) < 6:
+        raise AnalysisError(f"Documentation.__init__: the page table was not understood ({paged})")
+    pages = c09.doc_pages(py)
+    subl = c09.property_sublists(py, "Project")
+
+    def templates_of(factory: str) -> List[str]:
+        if factory in pages:
+            return [pages[factory][0]]
+        fdef = py.functions.get(f"output.{factory}")
+        if fdef is not None:
+            return [pages[call_name(c)][0] for c in py.walk_calls(fdef) if call_name(c) in pages]
+        return []
+    init = py.func("Documentation.__init__")
+    regs = [e for e in astq.trace(init) if e.kind == "call" and call_name(e.node).endswith("graphs.register") and e.loops]
+    if not regs:
+        raise AnalysisError("Documentation.__init__: the registration loop for graphs was not found")
+    registered: Set[str] = set()
+    for e in regs:
+        for lp in e.loops:
+            for x in [lp.iter] + astq.expand_locals(lp.iter, init):
+                for a in ast.walk(x):
+                    if isinstance(a, ast.Attribute) and ast.unparse(a.value) == "project":
+                        registered |= set(subl.get(a.attr, {a.attr}))
+    n = 0
+    for lst, factory in sorted(paged.items()):
+        tpls = templates_of(factory)
+        shows = [t for t in tpls if t in j.templates and re.search(r"\.\w*graph\b", (py.root / "ford" / "templates" / t).read_text(encoding="utf-8"))]
+        if not shows:
+            continue
+        n += 1
+        need = set(subl.get(lst, {lst})) - set(NO_GRAPHS)
+        if not need:
+            rep.ob(f"entities of project.{lst} are registered for graphs", True, "exempt: " + NO_GRAPHS[lst], py.nloc(regs[0].node), nontrivial=False)
+            continue
+        ok = need <= registered
+        rep.ob(f"entities of project.{lst} are registered for graphs", ok,
+               f"pages from {shows} show graphs; the list is walked by the registration loop" if ok else
+               f"pages of project.{lst} ({shows[0]}) have graph cards, but the registration loop walks {sorted(registered)} only: these "
+               f"entities get no graphs of their own and are not roots of the project-wide graph - edges that start at them are missing",
+               py.nloc(regs[0].node))
+    if n < 5:
+        raise AnalysisError(f"only {n} paged lists with graph cards found")
+
+
 RULES = [
     RuleSpec("C13.R6", r6_project_graph_roots, "project-wide graph roots; file dependencies use the recursive closure", floor=8),
     RuleSpec("C13.R1", r1_pairing, "forward/inverse adjacency pairing at node creation", floor=20),
@@ -467,4 +546,5 @@ RULES = [
     RuleSpec("C13.R7", r7_alias, "a saved alias of a component list is not mutated in place", floor=1),
     RuleSpec("C13.R9", r9_settings_inherited, "per-entity graph limits are inherited from their project-wide namesakes", floor=3),
     RuleSpec("C13.R10", r10_inherited_generic_specifics, "generic bindings of an extended type call that type's specifics (shared with C07.R12)", floor=1),
+    RuleSpec("C13.R11", r11_graphs_for_every_paged_kind, "every kind of entity whose page shows graphs is registered with the graph manager", floor=5),
 ]
